@@ -1,5 +1,11 @@
 // raftsim: runs real raft.Node clusters of /repo under seeded schedules (package raftdrv),
-// evaluates the C01/C02/C03 oracles on the recorded traces and writes traces/summaries.
+// evaluates the C01/C02/C03 direct oracles on the recorded traces and writes traces/summaries.
+//
+//	raftsim -mode sim    -seed S -n N -events E -out DIR [-trace K] [-storage mem|rocks-mem|rocks-pebble] [-profile P]
+//	raftsim -mode replay -out DIR file.json...      (Scenario files: corpus entries, replays)
+//	raftsim -mode crashpoints -seed S -n N -events E -out DIR   (every crash point of N base schedules)
+//	raftsim -mode log    -seed S -n N -out DIR      (pure raftLog/storage op sequences: cases.tsv + impl.out)
+//	raftsim -consts                                  (prints coq/Raft/Consts.v)
 package main
 
 import (
@@ -7,85 +13,270 @@ import (
 	"encoding/json"
 	"flag"
 	"fmt"
+	"math/rand"
 	"os"
 	"path/filepath"
+	"sort"
 	"time"
 
 	"verif/harness/internal/raftdrv"
 )
 
+type schedSummary struct {
+	Index   int                 `json:"sched"`
+	Profile string              `json:"profile"`
+	Opt     raftdrv.Options     `json:"opt"`
+	Records int                 `json:"records"`
+	Leaders int                 `json:"leaders"`
+	Commit  uint64              `json:"commit"`
+	Applied int                 `json:"applied"`
+	Hash    string              `json:"hash"`
+	Viol    []raftdrv.Violation `json:"violations,omitempty"`
+	File    string              `json:"file,omitempty"`
+	Scen    string              `json:"scenario,omitempty"`
+}
+
+type summary struct {
+	Mode       string         `json:"mode"`
+	Seed       int64          `json:"seed"`
+	Storage    string         `json:"storage"`
+	Schedules  []schedSummary `json:"schedules"`
+	Stats      raftdrv.Stats  `json:"stats"`
+	Hist       map[string]int `json:"hist"`
+	Profiles   map[string]int `json:"profiles"`
+	Configs    map[string]int `json:"configs"`
+	Violations int            `json:"violations"`
+	Order      string         `json:"order"`
+	WallS      float64        `json:"wall_s"`
+}
+
 func main() {
-	mode := flag.String("mode", "sim", "sim | log | consts | replay")
+	mode := flag.String("mode", "sim", "sim | replay | crashpoints | log")
+	consts := flag.Bool("consts", false, "print Consts.v")
 	seed := flag.Int64("seed", 1, "seed")
 	n := flag.Int("n", 20, "schedules")
 	events := flag.Int("events", 300, "events per schedule")
-	out := flag.String("out", "", "output directory")
+	out := flag.String("out", ".", "output directory")
 	ntrace := flag.Int("trace", 0, "write the full JSONL trace of the first K schedules")
 	storage := flag.String("storage", "mem", "mem | rocks-mem | rocks-pebble")
 	profile := flag.String("profile", "", "force a generator profile")
 	flag.Parse()
+	if *consts {
+		printConsts()
+		return
+	}
+	os.MkdirAll(*out, 0755)
+	raftdrv.CurrentOrder = raftdrv.ExtractOrder(raftdrv.RepoPath())
+	fmt.Printf("ORDER %s\n", raftdrv.CurrentOrder.String())
 	switch *mode {
 	case "sim":
 		sim(*seed, *n, *events, *out, *ntrace, *storage, *profile)
+	case "replay":
+		replay(flag.Args(), *out, *storage)
+	case "crashpoints":
+		crashpoints(*seed, *n, *events, *out, *storage, *profile)
+	case "log":
+		logMode(*seed, *n, *out)
 	default:
 		fmt.Fprintln(os.Stderr, "unknown mode")
 		os.Exit(2)
 	}
 }
 
-func sim(seed int64, n, events int, out string, ntrace int, storage, profile string) {
-	if out == "" {
-		out = "."
+func writeTrace(path string, hdr interface{}, recs []*raftdrv.Record) {
+	f, err := os.Create(path)
+	if err != nil {
+		return
 	}
-	os.MkdirAll(out, 0755)
+	w := bufio.NewWriterSize(f, 1<<20)
+	b, _ := json.Marshal(hdr)
+	w.Write(b)
+	w.WriteByte('\n')
+	for _, rec := range recs {
+		b, _ := json.Marshal(rec)
+		w.Write(b)
+		w.WriteByte('\n')
+	}
+	w.Flush()
+	f.Close()
+}
+
+func writeJSON(path string, v interface{}) {
+	b, _ := json.MarshalIndent(v, "", " ")
+	os.WriteFile(path, b, 0644)
+}
+
+type runner struct {
+	out   string
+	tmp   string
+	sum   summary
+	agg   raftdrv.Stats
+	count int
+}
+
+func newRunner(mode string, seed int64, out, storage string) *runner {
 	tmp, _ := os.MkdirTemp("", "raftsim")
-	defer os.RemoveAll(tmp)
-	t0 := time.Now()
-	total := 0
-	hist := map[string]int{}
-	for i := 0; i < n; i++ {
-		s, r := raftdrv.PlanSchedule(seed, i, events, storage, profile)
-		var w *bufio.Writer
-		var f *os.File
-		if i < ntrace {
-			f, _ = os.Create(filepath.Join(out, fmt.Sprintf("trace-%d-%d.jsonl", seed, i)))
-			w = bufio.NewWriterSize(f, 1<<20)
-			b, _ := json.Marshal(raftdrv.Header{Hdr: s})
-			w.Write(b)
-			w.WriteByte('\n')
+	r := &runner{out: out, tmp: tmp}
+	r.sum = summary{Mode: mode, Seed: seed, Storage: storage, Hist: map[string]int{}, Profiles: map[string]int{}, Configs: map[string]int{}}
+	r.agg = raftdrv.Stats{CrashStage: map[string]int{}}
+	return r
+}
+
+// observe runs one schedule through the oracle. run must call sink for every record and
+// return the concrete events executed.
+func (r *runner) observe(name string, idx int, profile string, opt raftdrv.Options, keepTrace bool,
+	run func(dir string, sink func(*raftdrv.Record)) []raftdrv.Event) schedSummary {
+	orc := raftdrv.NewOracle()
+	var recs []*raftdrv.Record
+	ss := schedSummary{Index: idx, Profile: profile, Opt: opt}
+	h := uint64(1469598103934665603)
+	r.count++
+	evs := run(filepath.Join(r.tmp, fmt.Sprint(r.count)), func(rec *raftdrv.Record) {
+		orc.Feed(rec)
+		recs = append(recs, rec)
+		ss.Records++
+		if rec.Rd != nil && rec.Rd.NewLeader {
+			ss.Leaders++
 		}
-		leaders := 0
-		maxc, napp := uint64(0), 0
-		var pan string
-		_, h, _ := raftdrv.RunGenerated(s, r, filepath.Join(tmp, fmt.Sprint(i)), func(rec *raftdrv.Record) {
-			total++
-			if rec.Panic != "" {
-				pan = rec.Panic
+		ss.Applied += len(rec.Applied)
+		for _, ns := range rec.Nodes {
+			if ns.Commit > ss.Commit {
+				ss.Commit = ns.Commit
 			}
-			if rec.Rd != nil && rec.Rd.NewLeader {
-				leaders++
-			}
-			napp += len(rec.Applied)
-			for _, ns := range rec.Nodes {
-				if ns.Commit > maxc {
-					maxc = ns.Commit
-				}
-			}
-			if w != nil {
-				b, _ := json.Marshal(rec)
-				w.Write(b)
-				w.WriteByte('\n')
-			}
-		})
-		for k, v := range h {
-			hist[k] += v
+			h = (h ^ (ns.Term*31 + ns.Commit*7 + ns.Last + uint64(ns.Role))) * 1099511628211
 		}
-		if w != nil {
-			w.Flush()
-			f.Close()
-		}
-		fmt.Printf("sched %d profile=%s voters=%d pv=%v cq=%v max=%d etick=%d leaders=%d commit=%d applied=%d panic=%q\n", i, s.Profile, s.Opt.Voters,
-			s.Opt.PreVote, s.Opt.CheckQuorum, s.Opt.MaxSizePerMsg, s.Opt.ElectionTick, leaders, maxc, napp, pan)
+		r.sum.Hist[rec.Ev.K]++
+	})
+	ss.Hash = fmt.Sprintf("%016x", h)
+	addStats(&r.agg, orc.S)
+	if len(orc.V) > 0 || keepTrace {
+		hdr := raftdrv.Header{Hdr: raftdrv.Schedule{Seed: r.sum.Seed, Index: idx, Profile: profile, Opt: opt, Events: len(evs)}}
+		ss.File = filepath.Join(r.out, name+".jsonl")
+		writeTrace(ss.File, hdr, recs)
 	}
-	fmt.Printf("records=%d wall=%v hist=%v\n", total, time.Since(t0), hist)
+	if len(orc.V) > 0 {
+		ss.Viol = orc.V
+		r.sum.Violations += len(orc.V)
+		ss.Scen = filepath.Join(r.out, name+".scenario.json")
+		writeJSON(ss.Scen, raftdrv.Scenario{Name: name, Opt: opt, Events: evs})
+		for _, v := range orc.V {
+			b, _ := json.Marshal(v)
+			fmt.Printf("VIOL %s %s\n", name, b)
+		}
+	}
+	r.sum.Profiles[profile]++
+	r.sum.Configs[fmt.Sprintf("v%d pv=%v cq=%v max=%v et=%d", opt.Voters, opt.PreVote, opt.CheckQuorum, opt.MaxSizePerMsg != 0, opt.ElectionTick)]++
+	r.sum.Schedules = append(r.sum.Schedules, ss)
+	return ss
+}
+
+func (r *runner) finish(t0 time.Time) {
+	r.sum.Stats = r.agg
+	r.sum.Order = raftdrv.CurrentOrder.String()
+	r.sum.WallS = time.Since(t0).Seconds()
+	writeJSON(filepath.Join(r.out, "summary.json"), r.sum)
+	sb, _ := json.Marshal(r.agg)
+	fmt.Printf("STATS %s\nschedules=%d violations=%d wall=%.1fs\n", sb, len(r.sum.Schedules), r.sum.Violations, r.sum.WallS)
+	os.RemoveAll(r.tmp)
+}
+
+func sim(seed int64, n, events int, out string, ntrace int, storage, profile string) {
+	t0 := time.Now()
+	r := newRunner("sim", seed, out, storage)
+	for i := 0; i < n; i++ {
+		s, rng := raftdrv.PlanSchedule(seed, i, events, storage, profile)
+		r.observe(fmt.Sprintf("sched-%d-%d", seed, i), i, s.Profile, s.Opt, i < ntrace, func(dir string, sink func(*raftdrv.Record)) []raftdrv.Event {
+			evs, _, _ := raftdrv.RunGenerated(s, rng, dir, sink)
+			return evs
+		})
+	}
+	r.finish(t0)
+}
+
+func replay(files []string, out, storage string) {
+	t0 := time.Now()
+	r := newRunner("replay", 0, out, storage)
+	sort.Strings(files)
+	for i, fn := range files {
+		b, err := os.ReadFile(fn)
+		if err != nil {
+			fmt.Fprintln(os.Stderr, err)
+			os.Exit(2)
+		}
+		var sc raftdrv.Scenario
+		if err := json.Unmarshal(b, &sc); err != nil {
+			fmt.Fprintln(os.Stderr, fn, err)
+			os.Exit(2)
+		}
+		if sc.Opt.Storage == "" {
+			sc.Opt.Storage = storage
+		}
+		name := "replay-" + filepath.Base(fn)
+		ss := r.observe(name, i, "scenario:"+sc.Name, sc.Opt, true, func(dir string, sink func(*raftdrv.Record)) []raftdrv.Event {
+			return raftdrv.RunScenario(sc, dir, sink)
+		})
+		fmt.Printf("scenario %s records=%d leaders=%d commit=%d applied=%d violations=%d\n", fn, ss.Records, ss.Leaders, ss.Commit, ss.Applied, len(ss.Viol))
+	}
+	r.finish(t0)
+}
+
+// crashpoints: for each base schedule, re-run its event list once per position p with a
+// "crash n" inserted after event p (n = the node event p touched), followed by a restart and
+// the rest of the schedule. Events that became impossible are no-ops (res != "").
+func crashpoints(seed int64, n, events int, out, storage, profile string) {
+	t0 := time.Now()
+	more := 150
+	r := newRunner("crashpoints", seed, out, storage)
+	for i := 0; i < n; i++ {
+		s, rng := raftdrv.PlanSchedule(seed, i, events, storage, profile)
+		var base []raftdrv.Event
+		r.observe(fmt.Sprintf("base-%d-%d", seed, i), i, s.Profile, s.Opt, false, func(dir string, sink func(*raftdrv.Record)) []raftdrv.Event {
+			base, _, _ = raftdrv.RunGenerated(s, rng, dir, sink)
+			return base
+		})
+		for p := 0; p < len(base); p++ {
+			ev := base[p]
+			if ev.N == 0 || (ev.K != "ready" && ev.K != "step") {
+				continue
+			}
+			p := p
+			name := fmt.Sprintf("cp-%d-%d-%d", seed, i, p)
+			rng2 := rand.New(rand.NewSource(seed*7919 + int64(i)*104729 + int64(p)))
+			r.observe(name, i, s.Profile+"+crashpoint", s.Opt, false, func(dir string, sink func(*raftdrv.Record)) []raftdrv.Event {
+				return raftdrv.RunPrefixThenGenerate(s, base[:p+1], []raftdrv.Event{{K: "crash", N: ev.N}}, rng2, more, dir, sink)
+			})
+		}
+	}
+	r.finish(t0)
+}
+
+func addStats(a *raftdrv.Stats, b raftdrv.Stats) {
+	a.Records += b.Records
+	a.Steps += b.Steps
+	a.Readys += b.Readys
+	a.LeadersElected += b.LeadersElected
+	a.Terms += b.Terms
+	if b.MaxTerm > a.MaxTerm {
+		a.MaxTerm = b.MaxTerm
+	}
+	a.Chosen += b.Chosen
+	a.HandOuts += b.HandOuts
+	a.Applies += b.Applies
+	a.Crashes += b.Crashes
+	a.CrashesMidReady += b.CrashesMidReady
+	for k, v := range b.CrashStage {
+		a.CrashStage[k] += v
+	}
+	a.Restarts += b.Restarts
+	a.SnapshotsInstalled += b.SnapshotsInstalled
+	a.Compactions += b.Compactions
+	a.ConfApplied += b.ConfApplied
+	a.LearnerSeen = a.LearnerSeen || b.LearnerSeen
+	a.VoteReqToLearner += b.VoteReqToLearner
+	a.LeaderChecks += b.LeaderChecks
+	a.AppliedAfterRestartCompared += b.AppliedAfterRestartCompared
+	a.MsgSnapSent += b.MsgSnapSent
+	a.Delivered += b.Delivered
+	a.Drops += b.Drops
+	a.StaleLeaderSteps += b.StaleLeaderSteps
 }
